@@ -1,25 +1,35 @@
-"""C11 DKG (FROST) consistency.
+"""C11 DKG consistency (FROST and Pedersen ceremonies).
 
 Theorems: coq/Properties/C11.v (Tbls/Frost.v on top of Tbls/Shamir.v).
-Correspondence: harness/overlay/dkg (go test -overlay, package dkg) runs the unexported runFrostParallel
-on n in-process nodes over an in-memory transport with random arrival/release orders; the group-side
-statements are checked on the real curve in Go (same group key and public shares on all nodes, secret
-share matches public share, any t public shares reconstruct the key, threshold signatures of t-subsets
-verify), and Coq decides on the produced scalars that the n secret shares of every validator lie on
-one polynomial of degree < t (vsr-style check of Tbls/ShamirZ.v, sound by C08_vsr_checkZ_sound)."""
+Correspondence, three ceremony classes, all checked with the same monitor on the real curve (same group
+key and public shares on all nodes, secret share matches public share, every (sampled above 40)
+t-subset of public shares reconstructs the key and of partial signatures verifies, t-1 public shares do
+not reconstruct) and with the Coq decision on the produced scalars (the n secret shares of every
+validator lie on one polynomial of degree exactly t-1; vsr_checkZ, sound by C08_vsr_checkZ_sound_r):
+  mem      harness/overlay/dkg  runFrostParallel over an in-memory transport, random arrival/release orders
+  p2p      harness/overlay/dkg  runFrostParallel over the REAL frostP2P transport (bcast/p2p callbacks, Round1/2,
+                                real libp2p hosts), broadcast delivery by an in-process stand-in that controls order and
+                                multiplicity: shuffled, identical re-deliveries, "duplicate of A before the late message of B"
+                                for round-1 casts, p2p shares and round-2 casts
+  pedersen harness/c11ped       dkg/pedersen.RunDKG in-process, n = 3..6, all t = 2..n (incl. t <= n/2 and t = n)"""
 import json
 import os
 import re
 
 import vp
 
-OVERLAY = {"zz_verif_c11_test.go": os.path.join(vp.HARNESS, "overlay", "dkg", "zz_verif_c11_test.go")}
+OVERLAY = {"zz_verif_c11_test.go": os.path.join(vp.HARNESS, "overlay", "dkg", "zz_verif_c11_test.go"),
+           "zz_verif_c11p2p_test.go": os.path.join(vp.HARNESS, "overlay", "dkg", "zz_verif_c11p2p_test.go")}
 
 HEADER = """From Coq Require Import ZArith List Bool.
 From Charon Require Import Tbls.ShamirZ Tbls.ShamirCorr.
 Import ListNotations.
 Local Open Scope Z_scope.
 """
+
+# safety violations first, so that they are the ones written as replays
+ORDER = ["dkg:group-key-differs", "dkg:public-shares-differ", "dkg:secret-share-mismatch", "dkg:pubshares-do-not-reconstruct",
+         "dkg:threshold-signature-invalid", "dkg:fewer-than-t-shares-reconstruct", "dkg:secret-shares-not-on-one-polynomial"]
 
 
 def zl(xs):
@@ -29,28 +39,68 @@ def zl(xs):
 def main():
     R = vp.Result("C11")
     R.assumptions = [
-        "kryptology's FROST participant is modelled (Feldman split = a polynomial of degree < t per node and validator; Round2 = own share + received shares over the ids in the broadcast map), not verified; its zero-knowledge and Feldman checks are not part of the model",
-        "transport contract: every node receives exactly the messages addressed to it, each once, in an arbitrary order (frostp2p.go source/target/validator-index validation and dedup; reliable broadcast is property C13); all n nodes are honest",
-        "pairing-group hypotheses and admissible ids 1..n as in C08; the Coq decision 'on one polynomial of degree < t' (vsr_checkZ at the BLS12-381 scalar order r) is sound by C08_vsr_checkZ_sound_r (r proved prime in Tbls/PrimeR.v)",
-        "the ceremony draws its randomness inside kryptology (crypto/rand): the check is relational on the produced outputs, a replay re-runs the configuration with the same order seed",
+        "kryptology's FROST participant and kyber's Pedersen DKG are modelled (each dealer contributes a polynomial of degree < t per validator; a node's share is the sum of what was routed to it), not verified; their zero-knowledge / Feldman / complaint machinery is not part of the model",
+        "theorems: transport contract = every node receives exactly the messages addressed to it, each once, in an arbitrary order, all n nodes honest; that frostp2p.go establishes this contract from a network that re-delivers and re-orders is not a theorem — it is exercised by the real-transport ceremony class (reliable broadcast itself is property C13)",
+        "Pedersen ceremonies are covered by correspondence against the same C08/C11 theorems about the joint polynomial (degree < t), there is no separate Coq model of dkg/pedersen",
+        "pairing-group hypotheses and admissible ids 1..n as in C08; the Coq decision 'on one polynomial of degree exactly t-1' (vsr_checkZ at the BLS12-381 scalar order r) is sound by C08_vsr_checkZ_sound_r (r proved prime in Tbls/PrimeR.v)",
+        "the ceremonies draw their randomness internally (crypto/rand): the check is relational on the produced outputs, a replay re-runs the configuration (same delivery plan / order seed) three times",
     ]
     R.proofs(extra_targets=["Tbls/ShamirCorr.v"])
 
-    rc, out, od = vp.go_overlay_test("dkg", OVERLAY, run="TestVerifC11")
-    if rc != 0:
-        R.broke("correspondence:overlay test dkg failed to run", out[-3000:])
-        R.finish()
-    o = json.load(open(os.path.join(od, "c11_cases.json")))
-    cer = o.get("ceremonies") or []
-    for v in o.get("violations") or []:
-        R.violation(v["key"], v["what"], v["replay"])
+    replay = None
+    if os.environ.get("VERIF_REPLAY"):
+        try:
+            replay = json.load(open(os.environ["VERIF_REPLAY"]))
+            replay = replay.get("replay", replay)
+        except (OSError, ValueError) as e:
+            R.broke("replay file unreadable", str(e))
+            R.finish()
+        if not isinstance(replay, dict) or "n" not in replay:
+            os.environ.pop("VERIF_REPLAY", None)
+            replay = None
+    want = {"mem", "p2p", "pedersen"}
+    if replay is not None:
+        want = {"pedersen"} if replay.get("algo") == "pedersen" else ({"p2p"} if replay.get("p2p") else {"mem"})
 
+    runs = []  # (class, output dict)
+    if "mem" in want:
+        rc, out, od = vp.go_overlay_test("dkg", OVERLAY, run="TestVerifC11$")
+        if rc != 0:
+            R.broke("correspondence:overlay test dkg (in-memory transport) failed to run", out[-3000:])
+        else:
+            runs.append(("mem", json.load(open(os.path.join(od, "c11_cases.json")))))
+    if "p2p" in want:
+        rc, out, od = vp.go_overlay_test("dkg", OVERLAY, run="TestVerifC11P2P$", timeout=1200)
+        if rc != 0:
+            R.broke("correspondence:overlay test dkg (real frostP2P transport) failed to run", out[-3000:])
+        else:
+            runs.append(("p2p", json.load(open(os.path.join(od, "c11p2p_cases.json")))))
+    if "pedersen" in want:
+        rc, out, od = vp.go_harness("c11ped")
+        if rc != 0:
+            R.broke("correspondence:harness c11ped (pedersen) failed to run", out[-3000:])
+        else:
+            runs.append(("pedersen", json.load(open(os.path.join(od, "c11ped_cases.json")))))
+
+    found = []
     rows, owner = [], {}
-    for c in cer:
-        for vi, val in enumerate(c.get("validators") or []):
-            i = len(rows)
-            owner[i] = (c, vi)
-            rows.append("(%d%%nat, (%d%%nat, %s))" % (i, val["t"], zl(val["shares"])))
+    dist, checks, ncer, distinct = {}, {}, 0, set()
+    for cls, o in runs:
+        cer = o.get("ceremonies") or []
+        ncer += len(cer)
+        for v in o.get("violations") or []:
+            found.append((v["key"], v["what"], v["replay"]))
+        for c in cer:
+            if not c.get("err"):
+                distinct.add((cls, c["n"], c["t"], c["vals"], json.dumps(c.get("p2p")), json.dumps(c.get("release_orders")), json.dumps(c.get("completion_order")), c.get("id") if cls == "pedersen" else 0))
+            for vi, val in enumerate(c.get("validators") or []):
+                i = len(rows)
+                owner[i] = (cls, c, vi)
+                rows.append("(%d%%nat, (%d%%nat, %s))" % (i, val["t"], zl(val["shares"])))
+        dist[cls] = o.get("dist")
+        for k, n in (o.get("checks") or {}).items():
+            checks[k] = checks.get(k, 0) + n
+
     jobs = []
     for si, shard in enumerate(vp.chunks(rows, 40 if R.thorough else 25)):
         text = (HEADER + "Definition cases : list (nat * (nat * list Z)) := [\n%s\n].\n"
@@ -68,20 +118,26 @@ def main():
             R.broke("correspondence:cases_%s printed no result" % name, out[-2000:])
             continue
         for i in [int(x) for x in re.findall(r"\d+", term.replace("nat", ""))]:
-            c, vi = owner[i]
-            R.violation("dkg:secret-shares-not-on-one-polynomial",
-                        "n=%d t=%d validators=%d: the %d secret shares of validator %d do not lie on one polynomial of degree < t (decided by vsr_checkZ in Coq)"
-                        % (c["n"], c["t"], c["vals"], c["n"], vi), c)
+            cls, c, vi = owner[i]
+            found.append(("dkg:secret-shares-not-on-one-polynomial",
+                          "%s ceremony n=%d t=%d validators=%d: the %d secret shares of validator %d do not lie on one polynomial of degree exactly t-1 = %d (decided by vsr_checkZ in Coq: either some share is off the common polynomial or the sharing has another degree than configured)"
+                          % (cls, c["n"], c["t"], c["vals"], c["n"], vi, c["t"] - 1), c))
+    found.sort(key=lambda f: ORDER.index(f[0]) if f[0] in ORDER else len(ORDER))
+    for key, what, rp in found:
+        R.violation(key, what, rp)
 
-    nvals = len(rows)
-    checks = o.get("checks") or {}
-    R.coverage["evaluations"] = len(cer)
-    R.coverage["distinct_nontrivial"] = len({(c["n"], c["t"], c["vals"], json.dumps(c.get("release_orders")), json.dumps(c.get("completion_order"))) for c in cer if not c.get("err")})
-    R.coverage["rule"] = ("one evaluation = one in-process ceremony (n nodes calling dkg.runFrostParallel concurrently over the in-memory transport); "
+    R.coverage["evaluations"] = ncer
+    R.coverage["distinct_nontrivial"] = len(distinct)
+    R.coverage["rule"] = ("one evaluation = one in-process ceremony (all n nodes run concurrently): FROST through dkg.runFrostParallel over an in-memory transport, "
+                          "FROST over the real frostP2P transport with controlled order and multiplicity of deliveries, or Pedersen through pedersen.RunDKG; "
                           "non-trivial = the ceremony completed on all nodes (then all group-side checks and the Coq polynomial check ran on its outputs); "
-                          "distinct by (n, t, validators, release orders of both rounds, completion order)")
-    R.coverage["input_distribution"] = {"ceremonies": o.get("dist"), "validators_checked_in_coq": nvals, "go_checks": checks}
-    if checks.get("below_threshold_RECONSTRUCTS"):
-        R.notes.append("t-1 public shares reconstructed the group key in %d sampled cases (threshold lower than configured)" % checks["below_threshold_RECONSTRUCTS"])
-    R.add_samples([{k: c[k] for k in ("n", "t", "vals", "release_orders", "completion_order")} for c in cer if not c.get("err")][:2])
+                          "distinct by (class, n, t, validators, delivery plan / release and completion orders)")
+    R.coverage["input_distribution"] = {"ceremonies": dist, "validators_checked_in_coq": len(rows), "go_checks": checks}
+    samples = []
+    for cls, o in runs:
+        for c in (o.get("ceremonies") or []):
+            if not c.get("err"):
+                samples.append({"class": cls, **{k: c.get(k) for k in ("n", "t", "vals", "p2p", "release_orders", "completion_order") if c.get(k) is not None}})
+                break
+    R.add_samples(samples, 3)
     R.finish()
